@@ -51,7 +51,7 @@ def gen_case(rng, tier, k):
                             ["dfs", 0, rng.randint(0, 1), None], ["min", 0, rng.randint(1, 4), False], ["none"]])
         ops = [] if first == ["none"] else [first]
         for _ in range(rng.randint(1, 4)):
-            ops.append([rng.choice(["seedsq", "seedsq", "setsq", "cands"]), rng.randrange(64)])
+            ops.append([rng.choice(["seedsq", "seedsq", "setsq", "cands", "rawcands", "rawcands"]), rng.randrange(64)])
         if rng.random() < 0.25:
             ops.append(["reclaim"])
         give = rng.choice([["scc", True], ["scc", False], ["scc", False], ["blockx", True, None, True, False], ["blockx", False, None, True, False],
